@@ -1132,3 +1132,57 @@ Proof.
   intros H1 H2 H3. unfold point_from_bytes.
   apply N.eqb_neq in H1, H2, H3. rewrite H1, H2, H3. reflexivity.
 Qed.
+
+(* ---- the secret scalar must lie in 1 .. n-1 ------------------------------------------------------------ *)
+
+Section SkRange.
+  Variable sqrt_mod : Z -> N -> option N.
+  Variable order_ok : curve -> N -> N -> bool.
+  Variable pubmul : curve -> N -> result (N * N).
+  Variable ed_sk : bool -> bytes -> result skey.
+  Variable known : list (list N * cref).
+
+  Lemma sk_from_secret_exponent_range c k : k = 0 \/ c_n c <= k ->
+    sk_from_secret_exponent order_ok pubmul c k = Err EMalformedPoint.
+  Proof.
+    intro H. unfold sk_from_secret_exponent.
+    assert (E : ((1 <=? k) && (k <? c_n c)) = false).
+    { destruct H as [-> | H]; [reflexivity|]. apply andb_false_iff. right. apply N.ltb_ge. exact H. }
+    rewrite E. reflexivity.
+  Qed.
+
+  Lemma sk_from_string_range c s k : blen s = baselen c -> string_to_number s = Ok k ->
+    k = 0 \/ c_n c <= k ->
+    sk_from_string order_ok pubmul ed_sk (CW c) s = Err EMalformedPoint.
+  Proof.
+    intros Hb Hn Hk. unfold sk_from_string. rewrite Hb, N.eqb_refl. cbn [negb]. rewrite Hn. cbn [bind].
+    apply sk_from_secret_exponent_range, Hk.
+  Qed.
+
+  Lemma sk_finish_range c ks k : blen ks = baselen c -> string_to_number ks = Ok k ->
+    k = 0 \/ c_n c <= k ->
+    sk_finish order_ok pubmul ed_sk (CW c) ks = Err EMalformedPoint.
+  Proof.
+    intros Hb Hn Hk. unfold sk_finish. rewrite Hb.
+    destruct (baselen c <? baselen c) eqn:E; [apply N.ltb_lt in E; lia|].
+    eapply sk_from_string_range; eassumption.
+  Qed.
+
+  (* SEC1 and PKCS#8 files whose key octets encode 0 or a value >= n are rejected as malformed *)
+  Lemma sk_der_range_rejected c ks cd evk k fmt ven vex :
+    blen ks = baselen c -> string_to_number ks = Ok k -> k = 0 \/ c_n c <= k ->
+    curve_from_der sqrt_mod known cd ven vex = Ok (CW c) ->
+    blen ks + blen cd + blen evk + 2000 < LMAX ->
+    sk_from_der sqrt_mod order_ok pubmul ed_sk known
+      (match fmt with
+       | Ssleay => tlv x30 (ecpriv_body ks (Some cd) evk)
+       | Pkcs8 => tlv x30 (INT1 ++ tlv x30 (PKB ++ cd) ++ tlv x04 (tlv x30 (ecpriv_body ks None evk)))
+       end) ven vex = Err EMalformedPoint.
+  Proof.
+    intros Hb Hn Hk Hc HS. destruct fmt.
+    - etransitivity; [apply (sk_from_der_ssleay sqrt_mod order_ok pubmul ed_sk known ks cd evk ven vex HS)|].
+      rewrite Hc. cbn [bind]. eapply sk_finish_range; eassumption.
+    - etransitivity; [apply (sk_from_der_pkcs8 sqrt_mod order_ok pubmul ed_sk known ks cd evk ven vex HS)|].
+      rewrite Hc. cbn [bind]. eapply sk_finish_range; eassumption.
+  Qed.
+End SkRange.
